@@ -244,6 +244,10 @@ class Renderer:
             self.emit(("!" if dis else "") + "." + n)
             if dis:
                 self.note("bang_attr")
+                if r.random() < 0.5:
+                    # a switched-off attribute is not interpreted at all: text that would not convert is as good as any
+                    text = {"expert_level": "advanced", "input_size": "wide", "optional": "sometimes", "multiple": "maybe",
+                            "type": "my_future_type(size=3)", "deprecated": "soon"}.get(n, text)
             self.opt_blank(); self.emit("="); self.opt_blank()
             self.emit(text)
             if scope:
